@@ -284,7 +284,24 @@ func atomsOf(stmt string) ([]atom, bool) {
 				as = append(as, atom{"+", "CONSTRAINT", "<pk>", ""})
 			case len(c) >= 3 && c[0] == "DROP" && c[1] == "PRIMARY" && c[2] == "KEY":
 				as = append(as, atom{"-", "CONSTRAINT", "<pk>", ""})
-			case len(c) >= 3 && (c[0] == "MODIFY" || c[0] == "ALTER" || c[0] == "CHANGE") && c[1] == "COLUMN" && isID(c[2]):
+			case len(c) >= 3 && c[0] == "ALTER" && c[1] == "COLUMN" && isID(c[2]):
+				// PostgreSQL: one clause per change kind of the column
+				k := "COLUMN"
+				r := c[3:]
+				switch {
+				case len(r) >= 1 && (r[0] == "TYPE" || r[0] == "SET" && len(r) >= 2 && r[1] == "DATA"):
+					k = "COLUMN-TYPE"
+				case len(r) >= 3 && (r[0] == "SET" || r[0] == "DROP") && r[1] == "NOT" && r[2] == "NULL":
+					k = "COLUMN-NULL"
+				case len(r) >= 2 && (r[0] == "SET" || r[0] == "DROP") && r[1] == "DEFAULT":
+					k = "COLUMN-DEFAULT"
+				case len(r) >= 2 && r[0] == "DROP" && r[1] == "EXPRESSION":
+					k = "COLUMN-EXPRESSION"
+				case len(r) >= 2 && (r[0] == "SET" || r[0] == "ADD") && r[1] == "GENERATED", len(r) >= 2 && r[0] == "DROP" && r[1] == "IDENTITY":
+					k = "COLUMN-IDENTITY"
+				}
+				as = append(as, atom{"~", k, tbl + "." + idOf(c[2]), ""})
+			case len(c) >= 3 && (c[0] == "MODIFY" || c[0] == "CHANGE") && c[1] == "COLUMN" && isID(c[2]):
 				as = append(as, atom{"~", "COLUMN", tbl + "." + idOf(c[2]), ""})
 			case len(c) >= 1 && (c[0] == "COMMENT" || c[0] == "AUTO_INCREMENT" || c[0] == "CHARSET" || c[0] == "COLLATE" || c[0] == "ENGINE"):
 				as = append(as, atom{"~", "TABLE-ATTR", tbl, ""})
@@ -397,4 +414,55 @@ func checkInverse(cmd string, revs []string) (string, string) {
 		return "bad", "Cmd touches " + strings.Join(atomStrings(ca), " ") + ", its reverse " + strings.Join(g, " ") + " (expected " + strings.Join(w, " ") + ")"
 	}
 	return "ok", ""
+}
+
+// modClauses: the column-modifying clauses (ALTER COLUMN / MODIFY COLUMN / CHANGE COLUMN) of an ALTER TABLE
+// statement, each as its token text.  A reverse that holds a clause of its Cmd verbatim sets the column to
+// the state the Cmd gave it: it restates the change, it does not undo it.
+func modClauses(stmt string) []string {
+	if !strings.HasPrefix(stmt, "ALTER TABLE ") {
+		return nil
+	}
+	// the raw text, cut at the commas outside parentheses and quotes
+	var parts []string
+	depth, q, start := 0, byte(0), 0
+	for i := 0; i < len(stmt); i++ {
+		ch := stmt[i]
+		switch {
+		case q != 0:
+			if ch == q {
+				q = 0
+			}
+		case ch == '\'' || ch == '"' || ch == '`':
+			q = ch
+		case ch == '(':
+			depth++
+		case ch == ')':
+			depth--
+		case ch == ',' && depth == 0:
+			parts = append(parts, stmt[start:i])
+			start = i + 1
+		}
+	}
+	parts = append(parts, stmt[start:])
+	var o []string
+	for k, p := range parts {
+		p = strings.TrimSpace(strings.TrimSuffix(strings.TrimSpace(p), ";"))
+		if k == 0 {
+			at := -1
+			for _, kw := range []string{" ALTER COLUMN ", " MODIFY COLUMN ", " CHANGE COLUMN "} {
+				if j := strings.Index(p, kw); j >= 0 && (at < 0 || j < at) {
+					at = j
+				}
+			}
+			if at < 0 {
+				continue
+			}
+			p = p[at+1:]
+		}
+		if strings.HasPrefix(p, "ALTER COLUMN ") || strings.HasPrefix(p, "MODIFY COLUMN ") || strings.HasPrefix(p, "CHANGE COLUMN ") {
+			o = append(o, p)
+		}
+	}
+	return o
 }
